@@ -87,9 +87,12 @@ Fixpoint decode (fuel : nat) (l : bytes) : option (cbor * bytes) :=
     else if major =? 1 then Some (CNint arg, r)
     else if major =? 2 then match take arg r with Some (b, r') => Some (CBytes b, r') | None => None end
     else if major =? 3 then match take arg r with Some (b, r') => Some (CText b, r') | None => None end
+    (* every item takes at least one byte: a count larger than what is left cannot succeed (and must not be unfolded) *)
     else if major =? 4 then
+      if blen r <? arg then None else
       match dec_items (decode f) (Z.to_nat arg) r with Some (cs, r') => Some (CArray cs, r') | None => None end
     else if major =? 5 then
+      if blen r <? arg then None else
       match dec_pairs (decode f) (Z.to_nat arg) r with Some (cs, r') => Some (CMap cs, r') | None => None end
     else if major =? 6 then match decode f r with Some (c, r') => Some (CTag arg c, r') | None => None end
     else if arg <? 24 then Some (CSimple arg, r) else None
